@@ -804,6 +804,29 @@ enum Exit {
     GDropEarly,
     GRename,
     GWithCompletion,
+    /// CANCELLATION (async forms): the future is polled this many times by hand and then dropped
+    /// (0 = never polled). If it finishes before that, the invocation counts as a normal one.
+    Cancel(u8),
+}
+
+thread_local! {
+    /// did the future of a `Cancel(k)` invocation finish before it could be dropped
+    static FINISHED: std::cell::Cell<bool> = const { std::cell::Cell::new(false) };
+}
+
+/// Poll `f` up to `k` times, then drop it wherever it is suspended.
+fn poll_then_drop<F: Future>(f: F, k: u8) {
+    let mut f = std::pin::pin!(f);
+    let mut cx = Context::from_waker(Waker::noop());
+    let mut finished = false;
+    for _ in 0..k {
+        if f.as_mut().poll(&mut cx).is_ready() {
+            finished = true;
+            break;
+        }
+    }
+    FINISHED.with(|c| c.set(finished));
+    // (the pinned future is dropped here, at the end of its scope)
 }
 
 fn fails(msg: &'static str) -> Result<u32, MyErr> {
@@ -1104,6 +1127,38 @@ fn manual_new_span(rt: &Rt, inv: u32, en: bool, exit: Exit) -> u32 {
     })
 }
 
+/// `new_span!` + `frame.in_future(..)`: the guard lives in the future the frame wraps.
+async fn manual_in_future(rt: &Rt, inv: u32, en: bool, exit: Exit) -> u32 {
+    let (mut guard, frame) = emit::new_span!(rt: *rt, "manual_in_future {inv}", inv, en);
+    frame
+        .in_future(async move {
+            guard.start();
+            YieldNow(false).await;
+            if exit == Exit::Panic {
+                panic!("boom");
+            }
+            YieldNow(false).await;
+            drop(guard);
+            0
+        })
+        .await
+}
+
+#[emit::span(rt: *rt, "async_nested_inner {inv}", inv, en, depth: 2)]
+async fn async_nested_inner(rt: &Rt, inv: u32, en: bool) -> u32 {
+    YieldNow(false).await;
+    2
+}
+
+/// An async span suspended inside a NESTED async span: a cancellation drops both frames at once.
+#[emit::info_span(rt: *rt, "async_nested_outer {inv}", inv, en)]
+async fn async_nested_outer(rt: &Rt, inv: u32, en: bool, _exit: Exit) -> u32 {
+    YieldNow(false).await;
+    let v = async_nested_inner(rt, inv, en).await;
+    YieldNow(false).await;
+    v
+}
+
 fn manual_new_info_span_never_started(rt: &Rt, inv: u32, en: bool, _exit: Exit) -> u32 {
     let (guard, frame) = emit::new_info_span!(rt: *rt, "never_started {inv}", inv, en);
     frame.call(move || {
@@ -1126,6 +1181,8 @@ struct Form {
     /// text of `err` for an Err exit, given the error's Display (None = Display of the error)
     mapped_err: Option<&'static str>,
     never_started: bool,
+    /// `async_nested_outer`: two spans per invocation
+    nested: bool,
 }
 
 const PLAIN_EXITS: &[Exit] = &[Exit::Normal, Exit::Early, Exit::Panic];
@@ -1142,6 +1199,33 @@ const GUARD_EXITS: &[Exit] = &[
 ];
 #[allow(dead_code)]
 const BLOCK_EXITS: &[Exit] = &[Exit::Normal, Exit::Panic];
+const ASYNC_PLAIN_EXITS: &[Exit] = &[Exit::Normal, Exit::Early, Exit::Panic, Exit::Cancel(0), Exit::Cancel(1), Exit::Cancel(2)];
+const ASYNC_RESULT_EXITS: &[Exit] = &[
+    Exit::Normal,
+    Exit::Early,
+    Exit::EarlyErr,
+    Exit::Question,
+    Exit::TailErr,
+    Exit::Panic,
+    Exit::Cancel(0),
+    Exit::Cancel(1),
+    Exit::Cancel(2),
+];
+const ASYNC_GUARD_EXITS: &[Exit] = &[
+    Exit::Normal,
+    Exit::Early,
+    Exit::Panic,
+    Exit::GComplete,
+    Exit::GCompleteWith,
+    Exit::GDropEarly,
+    Exit::GRename,
+    Exit::GWithCompletion,
+    Exit::Cancel(0),
+    Exit::Cancel(1),
+    Exit::Cancel(2),
+];
+const ASYNC_MANUAL_EXITS: &[Exit] = &[Exit::Normal, Exit::Panic, Exit::Cancel(0), Exit::Cancel(1), Exit::Cancel(2)];
+const NESTED_EXITS: &[Exit] = &[Exit::Normal, Exit::Cancel(0), Exit::Cancel(1), Exit::Cancel(2), Exit::Cancel(3)];
 const MANUAL_EXITS: &[Exit] = &[Exit::Normal, Exit::Early, Exit::Panic, Exit::GComplete];
 
 macro_rules! sync_form {
@@ -1151,7 +1235,14 @@ macro_rules! sync_form {
 }
 macro_rules! async_form {
     ($f:ident) => {
-        |rt, inv, en, exit| catch(|| { let _ = block_on($f(rt, inv, en, exit)); })
+        |rt, inv, en, exit| {
+            catch(|| match exit {
+                Exit::Cancel(k) => poll_then_drop($f(rt, inv, en, exit), k),
+                _ => {
+                    let _ = block_on($f(rt, inv, en, exit));
+                }
+            })
+        }
     };
 }
 
@@ -1167,6 +1258,7 @@ fn form(name: &'static str, run: fn(&Rt, u32, bool, Exit) -> Result<(), String>,
         result_aware: false,
         mapped_err: None,
         never_started: false,
+        nested: false,
     }
 }
 
@@ -1174,30 +1266,166 @@ fn forms() -> Vec<Form> {
     let _ = plain_body;
     vec![
         form("sync_plain", sync_form!(sync_plain), PLAIN_EXITS),
-        form("async_plain", async_form!(async_plain), PLAIN_EXITS),
+        form("async_plain", async_form!(async_plain), ASYNC_PLAIN_EXITS),
         Form { default_lvl: Some("debug"), ..form("sync_debug", sync_form!(sync_debug), PLAIN_EXITS) },
         Form { default_lvl: Some("info"), ..form("sync_info", sync_form!(sync_info), PLAIN_EXITS) },
-        Form { default_lvl: Some("warn"), ..form("async_warn", async_form!(async_warn), PLAIN_EXITS) },
+        Form { default_lvl: Some("warn"), ..form("async_warn", async_form!(async_warn), ASYNC_PLAIN_EXITS) },
         Form { default_lvl: Some("error"), ..form("sync_error", sync_form!(sync_error), PLAIN_EXITS) },
         Form { panic_lvl: Some("warn"), ..form("sync_panic_lvl", sync_form!(sync_panic_lvl), PLAIN_EXITS) },
-        Form { default_lvl: Some("info"), panic_lvl: Some("debug"), ..form("async_info_panic_lvl", async_form!(async_info_panic_lvl), PLAIN_EXITS) },
+        Form { default_lvl: Some("info"), panic_lvl: Some("debug"), ..form("async_info_panic_lvl", async_form!(async_info_panic_lvl), ASYNC_PLAIN_EXITS) },
         form("sync_plain_result", sync_form!(sync_plain_result), RESULT_EXITS),
         Form { ok_lvl: Some("info"), result_aware: true, ..form("sync_ok_lvl", sync_form!(sync_ok_lvl), RESULT_EXITS) },
         Form { err_lvl: Some("warn"), result_aware: true, ..form("sync_err_lvl", sync_form!(sync_err_lvl), RESULT_EXITS) },
         Form { ok_lvl: Some("debug"), err_lvl: Some("warn"), panic_lvl: Some("info"), result_aware: true, ..form("sync_all_lvls", sync_form!(sync_all_lvls), RESULT_EXITS) },
-        Form { ok_lvl: Some("debug"), result_aware: true, ..form("async_ok_lvl", async_form!(async_ok_lvl), RESULT_EXITS) },
-        Form { default_lvl: Some("info"), err_lvl: Some("error"), result_aware: true, ..form("async_info_err_lvl", async_form!(async_info_err_lvl), RESULT_EXITS) },
+        Form { ok_lvl: Some("debug"), result_aware: true, ..form("async_ok_lvl", async_form!(async_ok_lvl), ASYNC_RESULT_EXITS) },
+        Form { default_lvl: Some("info"), err_lvl: Some("error"), result_aware: true, ..form("async_info_err_lvl", async_form!(async_info_err_lvl), ASYNC_RESULT_EXITS) },
         Form { default_lvl: Some("info"), ok_lvl: Some("debug"), result_aware: true, ..form("sync_info_ok_lvl", sync_form!(sync_info_ok_lvl), RESULT_EXITS) },
         Form { result_aware: true, mapped_err: Some("mapped"), ..form("sync_err_mapper", sync_form!(sync_err_mapper), RESULT_EXITS) },
-        Form { err_lvl: Some("warn"), result_aware: true, ..form("async_err_mapper", async_form!(async_err_mapper), RESULT_EXITS) },
+        Form { err_lvl: Some("warn"), result_aware: true, ..form("async_err_mapper", async_form!(async_err_mapper), ASYNC_RESULT_EXITS) },
         form("sync_guard", sync_form!(sync_guard), GUARD_EXITS),
-        Form { panic_lvl: Some("warn"), ..form("async_guard", async_form!(async_guard), GUARD_EXITS) },
+        Form { panic_lvl: Some("warn"), ..form("async_guard", async_form!(async_guard), ASYNC_GUARD_EXITS) },
         // attributes on block expressions need nightly features: only built under Miri (always nightly)
         #[cfg(miri)]
         form("sync_block", sync_form!(sync_block), BLOCK_EXITS),
         form("manual_new_span", sync_form!(manual_new_span), MANUAL_EXITS),
+        form("manual_in_future", async_form!(manual_in_future), ASYNC_MANUAL_EXITS),
+        Form { default_lvl: Some("info"), nested: true, ..form("async_nested_outer", async_form!(async_nested_outer), NESTED_EXITS) },
         Form { default_lvl: Some("info"), never_started: true, ..form("manual_new_info_span_never_started", sync_form!(manual_new_info_span_never_started), &[Exit::Normal]) },
     ]
+}
+
+/// The common content checks of a span event that was completed by a DROP of its suspended future.
+fn cancelled_content(e: &Captured, name: &str, inv: u32, lvl: Option<&str>, wrong: &mut Vec<(&'static str, String)>) {
+    if e.get("evt_kind") != Some("span") {
+        wrong.push(("kind-not-span", format!("evt_kind={:?}", e.get("evt_kind"))));
+    }
+    if e.get("span_name") != Some(name) {
+        wrong.push(("wrong-name", format!("span_name={:?}, expected {:?}", e.get("span_name"), name)));
+    }
+    if e.get("inv") != Some(inv.to_string().as_str()) {
+        wrong.push(("props-missing", format!("inv={:?} (the span's own property, expected {})", e.get("inv"), inv)));
+    }
+    if e.get("trace_id").map(|t| t.len()) != Some(32) || e.get("span_id").map(|t| t.len()) != Some(16) {
+        wrong.push(("ids-missing", format!("trace_id={:?} span_id={:?}", e.get("trace_id"), e.get("span_id"))));
+    }
+    if e.get("lvl") != lvl {
+        wrong.push(("wrong-lvl", format!("lvl={:?}, a dropped span gets its default level {:?} (no panic level)", e.get("lvl"), lvl)));
+    }
+    if e.get("err").is_some() {
+        wrong.push(("wrong-err", format!("err={:?} (a drop is not a panic and not an Err)", e.get("err"))));
+    }
+}
+
+/// A single-span async form whose future was polled `k` times and dropped while suspended.
+fn check_cancelled(r: &mut Report, f: &Form, k: u8, en: bool, inv: u32, events: &[Captured], custom_calls: usize, clock: &ScriptClock, case: &dyn Fn() -> Json) {
+    r.observe(&format!("cancelled:after-{}-polls", k), 1);
+    let started = k >= 1;
+    let want = if en && started { 1 } else { 0 };
+    if events.len() != want || custom_calls != 0 {
+        r.violation(
+            &format!(
+                "C05:macro:completed-span:cancelled:completion-count-{}:{}:{}",
+                events.len().min(2),
+                if !started { "never-polled" } else if en { "enabled" } else { "disabled" },
+                f.name
+            ),
+            &format!("future polled {} time(s) and dropped: {} span event(s) and {} custom completion call(s), expected {} and 0", k, events.len(), custom_calls, want),
+            case(),
+        );
+    }
+    let Some(e) = events.first() else { return };
+    if want != 1 {
+        return;
+    }
+    r.observe("cancelled:span-events-judged", 1);
+    let mut wrong = Vec::new();
+    cancelled_content(e, &format!("{} {{inv}}", f.name), inv, f.default_lvl, &mut wrong);
+    let readings = clock.log.lock().unwrap().clone();
+    match (readings.first().copied().flatten(), readings.get(1).copied().flatten()) {
+        (Some(s), Some(end)) => {
+            if e.extent != Some((Some(s), end)) {
+                wrong.push(("wrong-extent", format!("extent={:?}, expected {}..{} (reading at start .. reading at the drop)", e.extent, s, end)));
+            }
+        }
+        _ => {
+            // (a drop completes through `completion::Default`: no extent without both readings)
+            if e.extent.is_some() {
+                wrong.push(("extent-from-missing-reading", format!("extent={:?} with the clock readings {:?}", e.extent, readings)));
+            }
+        }
+    }
+    for (what, text) in wrong {
+        r.violation(&format!("C05:macro:completed-span:cancelled:{}", what), &format!("{} polled {} time(s) and dropped: {}", f.name, k, text), case());
+    }
+}
+
+/// `async_nested_outer`: an outer span suspended at its own yields or inside the inner span.
+fn check_nested(r: &mut Report, f: &Form, exit: Exit, en: bool, inv: u32, mode: ClockMode, events: &[Captured], case: &dyn Fn() -> Json) {
+    // polls: 1 = outer at its first yield, 2 = inside the inner span, 3 = inner done, outer at its
+    // second yield, 4 = finished
+    let polls = match exit {
+        Exit::Cancel(k) => k,
+        _ => 4,
+    };
+    r.observe(&format!("cancelled:nested-after-{}-polls", polls.min(4)), 1);
+    let want_inner = en && polls >= 2;
+    let want_outer = en && polls >= 1;
+    let inner: Vec<&Captured> = events.iter().filter(|e| e.get("span_name") == Some("async_nested_inner {inv}")).collect();
+    let outer: Vec<&Captured> = events.iter().filter(|e| e.get("span_name") == Some("async_nested_outer {inv}")).collect();
+    let sig = |what: &str| format!("C05:macro:completed-span:cancelled:nested:{}", what);
+    if inner.len() != want_inner as usize || outer.len() != want_outer as usize || inner.len() + outer.len() != events.len() {
+        r.violation(
+            &sig(&format!("completion-count:{}-polls", polls.min(4))),
+            &format!(
+                "{} inner and {} outer span event(s) out of {} events, expected {} and {}",
+                inner.len(),
+                outer.len(),
+                events.len(),
+                want_inner as usize,
+                want_outer as usize
+            ),
+            case(),
+        );
+        return;
+    }
+    let mut wrong = Vec::new();
+    if let Some(o) = outer.first() {
+        r.observe("cancelled:span-events-judged", 1);
+        cancelled_content(o, "async_nested_outer {inv}", inv, f.default_lvl, &mut wrong);
+        if mode == ClockMode::Steady && !matches!(o.extent, Some((Some(s), e)) if s <= e) {
+            wrong.push(("wrong-extent", format!("outer extent={:?}", o.extent)));
+        }
+    }
+    if let (Some(i), Some(o)) = (inner.first(), outer.first()) {
+        r.observe("cancelled:span-events-judged", 1);
+        r.observe("cancelled:two-frames-dropped-at-once", (polls == 2) as u64);
+        cancelled_content(i, "async_nested_inner {inv}", inv, None, &mut wrong);
+        if i.get("depth") != Some("2") {
+            wrong.push(("props-missing", format!("inner depth={:?}", i.get("depth"))));
+        }
+        if i.get("span_parent") != o.get("span_id") || i.get("trace_id") != o.get("trace_id") || i.get("span_id") == o.get("span_id") {
+            wrong.push((
+                "wrong-parent",
+                format!(
+                    "inner trace/parent/span = {:?}/{:?}/{:?}, outer trace/span = {:?}/{:?}",
+                    i.get("trace_id"),
+                    i.get("span_parent"),
+                    i.get("span_id"),
+                    o.get("trace_id"),
+                    o.get("span_id")
+                ),
+            ));
+        }
+        if o.get("span_parent").is_some() {
+            wrong.push(("wrong-parent", format!("outer has span_parent={:?}", o.get("span_parent"))));
+        }
+        if i.stamp > o.stamp {
+            wrong.push(("order", "the inner span completed after the outer one".to_string()));
+        }
+    }
+    for (what, text) in wrong {
+        r.violation(&sig(what), &format!("async_nested_outer after {} poll(s): {}", polls, text), case());
+    }
 }
 
 fn check_invocation(r: &mut Report, f: &Form, exit: Exit, en: bool, mode: ClockMode, inv: u32) {
@@ -1232,6 +1460,18 @@ fn check_invocation(r: &mut Report, f: &Form, exit: Exit, en: bool, mode: ClockM
         return;
     }
 
+    if f.nested {
+        check_nested(r, f, exit, en, inv, mode, &events, &case);
+        return;
+    }
+    if let Exit::Cancel(k) = exit {
+        if !FINISHED.with(|c| c.get()) {
+            check_cancelled(r, f, k, en, inv, &events, custom_calls.len(), &clock, &case);
+            return;
+        }
+        // finished before it could be cancelled: judged as a normal invocation below
+        r.observe("cancel:finished-before-the-drop", 1);
+    }
     let to_custom = en && !f.never_started && matches!(exit, Exit::GCompleteWith | Exit::GWithCompletion);
     let want_events = if en && !f.never_started && !to_custom { 1 } else { 0 };
     let want_custom = if to_custom { 1 } else { 0 };
